@@ -569,6 +569,19 @@ def keep_two_placeholders_one_segment(d, rng):
     return "two placeholders in one path segment"
 
 
+def keep_near_overlap(d, rng):
+    # two paths that differ once the placeholders are replaced - but only just: two placeholders against one in the same
+    # segment, adjacent placeholders, a literal around the placeholder, the same template under different literals
+    shapes = [(("/near/{a}-{b}", "ab"), ("/near/{c}", "c")), (("/near/{a}{b}", "ab"), ("/near/{c}", "c")),
+              (("/near/x{a}", "a"), ("/near/{c}", "c")), (("/near/{a}/x", "a"), ("/near/{c}/y", "c")),
+              (("/near/{a}.{b}", "ab"), ("/near/{c}.json", "c")), (("/near/{a}-{b}/z", "ab"), ("/near/{c}/z", "c")),
+              (("/near/{a}", "a"), ("/near/{c}/", "c"))]
+    for path, names in shapes[next_variant("near_overlap", len(shapes))]:
+        d["paths"][path] = {"get": {"operationId": "near" + names.upper(), "responses": {"200": {"description": "r"}},
+                                    "parameters": [{"name": x, "in": "path", "required": True, "type": "string"} for x in names]}}
+    return "paths that differ after the placeholders are replaced, but only just"
+
+
 def keep_same_name_other_location(d, rng):
     p, m, op = rng.choice(_ops(d))
     op.setdefault("parameters", []).extend([{"name": "same", "in": "query", "type": "string"}, {"name": "same", "in": "header", "type": "string"}])
@@ -625,7 +638,7 @@ BREAKING = [("unique operation ids", edit_dup_opid, False), ("path parameters ma
             ("no empty placeholder", edit_empty_placeholder, False), ("no overlapping paths", edit_overlap, True),
             ("at most one body parameter", edit_body_via_shared, False), ("patterns are valid", edit_bad_items_pattern, False),
             ("arrays declare items", edit_schema_array_no_items, False), ("arrays declare items", edit_header_array_no_items, False)]
-HARMLESS = [keep_required_via_additional, keep_required_via_nested_additional, keep_case_variant_names, keep_same_opid_other_case, keep_two_placeholders_one_segment, keep_same_name_other_location]
+HARMLESS = [keep_required_via_additional, keep_required_via_nested_additional, keep_case_variant_names, keep_same_opid_other_case, keep_two_placeholders_one_segment, keep_same_name_other_location, keep_near_overlap]
 
 
 def ancestry_doc(rng):
